@@ -406,8 +406,85 @@ def _doc(model, proto, vals, parts, p, mode, fmt, seedinfo):
             "values_repr": repr(vals)[:2000]}
 
 
+def versioned_task(task, ybin, root):
+    """Readers that read a *previous version's* stream (C++ only): the newest package of a seeded version chain (C05's
+    generator: removed / added / reordered / retyped fields, widened steps, changed named types, narrowed unions) is
+    generated for C++; a stream encoded under a previous version's model is cut at every value boundary +-2 and at seeded
+    positions and relayed by the newest reader.  Oracle: the intact stream is relayed without error (control); every cut
+    ends in an error; the lines emitted before the error are a prefix of the lines of the intact relay."""
+    import importlib
+    C05 = importlib.import_module("checks.C05")
+    seed, i, quick = task["seed"], task["i"], task["tier"] == "quick"
+    rng = M.derive(seed, "c16v", i)
+    newest = C05.make_chain(rng.fork("chain"))
+    stats, viols, cases = {"models_with_cpp": 1, "versioned_models": 1}, [], []
+    model, old_models = C05.open_models(newest, ybin, root)
+    try:
+        try:
+            cm = C.CppModel(model.dir)
+        except C.GeneratedCodeDoesNotCompile:
+            stats["generated_cpp_did_not_compile(discarded)"] = 1
+            return {"stats": stats, "violations": [], "cases": [], "samples": []}
+        ns = newest.namespace
+        for label, (old_pkg, old_env, old_schemas) in old_models.items():
+            for proto in model.protocols():
+                old_proto = old_pkg.find(proto.name)
+                if old_proto is None or proto.name not in old_schemas or viols:
+                    continue
+                r = rng.fork(label, proto.name)
+                codec_old = R.Codec(old_env)
+                vals = sw.gen_values(old_env, ns, old_proto, r, finite=True, items=(1, 4))
+                parts = sw.gen_partitions(old_proto, vals, r)
+                data = codec_old.encode_stream(old_proto, ns, old_schemas[proto.name], vals, parts)
+                marks = sorted(set(codec_old.marks))
+                nb = cm.copyto[proto.name]
+                cuts = sorted({m + d for m in marks for d in (-2, -1, 0, 1, 2) if 0 <= m + d < len(data)} | {r.randint(0, len(data) - 1) for _ in range(20 if quick else 120)}
+                              | (set(range(len(data))) if (len(data) <= 600 and not quick) else set()))
+                if quick and len(cuts) > 120:
+                    keep = list(cuts)
+                    r.shuffle(keep)
+                    cuts = sorted(keep[:120])
+                runs = [{"proto": proto.name, "op": "relay", "in_fmt": "binary", "out_fmt": "ndjson", "input": 0, "batch": [1] * nb}]
+                for p in cuts:
+                    runs.append({"proto": proto.name, "op": "relay", "in_fmt": "binary", "out_fmt": "ndjson", "input": 0, "batch": [r.choice([1, 1, 2, 3, 64])] * nb, "cut": p})
+                results = cm.run_plan([data], runs, timeout=240)
+                stats["runs"] = stats.get("runs", 0) + len(runs)
+                base = results[0]
+                if base is None or base.get("crashed") or not base.get("ok"):
+                    stats["previous_version_stream_not_readable(C05's business, skipped)"] = stats.get("previous_version_stream_not_readable(C05's business, skipped)", 0) + 1
+                    continue
+                base_lines = bytes.fromhex(base["out"]).decode("utf-8", "replace").split("\n")
+                stats["cpp_previous_version_streams"] = stats.get("cpp_previous_version_streams", 0) + 1
+                for p, res in zip(cuts, results[1:]):
+                    stats["cpp_previous_version_cuts"] = stats.get("cpp_previous_version_cuts", 0) + 1
+                    if res is None:
+                        continue
+                    d = {"kind": "c16v", "pkg": sw.pack_pkg(model.pkg), "files": M.render_tree(model.pkg, ""), "protocol": proto.name, "version": label, "cut": p, "payload_hex": data.hex(),
+                         "seed": seed, "model_index": i, "batch": runs[1 + cuts.index(p)]["batch"]}
+                    cls = "cut_on_value_boundary" if p in marks else "cut_inside_value"
+                    if res.get("crashed"):
+                        viols.append(({"class": "reader_hangs_on_truncated_stream" if res.get("hang") else "reader_crashed_on_truncated_stream", "lang": "cpp", "format": "binary(previous version)", "position_class": cls}, d))
+                        break
+                    if res["ok"]:
+                        viols.append(({"class": "truncation_not_reported", "lang": "cpp", "format": "binary(previous version)", "position_class": cls}, d))
+                        break
+                    got = bytes.fromhex(res["out"]).decode("utf-8", "replace").split("\n")
+                    complete = got[:-1]            # (the last element is what follows the last newline: an unfinished line or "")
+                    if complete != base_lines[:len(complete)]:
+                        k = next((j for j, (a, b) in enumerate(zip(complete, base_lines)) if a != b), len(base_lines))
+                        viols.append(({"class": "wrong_value_before_error", "lang": "cpp", "format": "binary(previous version)", "position_class": cls,
+                                       "detail": "line %d before the error differs from the intact relay" % k}, d))
+                        break
+                cases.append((["c16v", i, proto.name, label], True))
+    finally:
+        model.close()
+    return {"stats": stats, "violations": viols, "cases": cases, "samples": [{"model_index": i, "versioned": True}]}
+
+
 def model_task(task, ybin, root):
     seed, i, quick = task["seed"], task["i"], task["tier"] == "quick"
+    if i % 6 == 3:
+        return versioned_task(task, ybin, root)
     rng = M.derive(seed, "c16", i)
     want_cpp = (i % 6 == 0) if quick else (i % 2 == 0)
     cfg = M.GenConfig.swarm(rng.fork("cfg"))
@@ -449,6 +526,27 @@ def model_task(task, ybin, root):
 
 
 def replay_doc(doc, ybin, root):
+    if doc.get("kind") == "c16v":
+        import importlib
+        C05 = importlib.import_module("checks.C05")
+        newest = sw.unpack_pkg(doc["pkg"])
+        model, _ = C05.open_models(newest, ybin, root)
+        try:
+            cm = C.CppModel(model.dir)
+            nb = cm.copyto[doc["protocol"]]
+            data = bytes.fromhex(doc["payload_hex"])
+            runs = [{"proto": doc["protocol"], "op": "relay", "in_fmt": "binary", "out_fmt": "ndjson", "input": 0, "batch": [1] * nb},
+                    {"proto": doc["protocol"], "op": "relay", "in_fmt": "binary", "out_fmt": "ndjson", "input": 0, "batch": doc.get("batch") or [1] * nb, "cut": doc["cut"]}]
+            base, res = cm.run_plan([data], runs, timeout=240)
+            if res is None or res.get("crashed"):
+                return True, "reader crashed or hung"
+            if res["ok"]:
+                return True, "the stream cut at %d was relayed without error" % doc["cut"]
+            got = bytes.fromhex(res["out"]).decode("utf-8", "replace").split("\n")[:-1]
+            bl = bytes.fromhex(base["out"]).decode("utf-8", "replace").split("\n")
+            return got != bl[:len(got)], "lines before the error %s a prefix of the intact relay" % ("are not" if got != bl[:len(got)] else "are")
+        finally:
+            model.close()
     pkg = sw.unpack_pkg(doc["pkg"])
     model = P.PyModel(pkg, ybin, root, want_cpp=doc.get("lang") == "cpp", cpp_opts=C.CPP_OPTS)
     try:
@@ -511,7 +609,7 @@ def main():
                assumptions=["the reference codec follows docs/reference/*.md except int8/uint8 as one raw byte (what every backend does; reported under C01)",
                             "an NDJSON prefix that is itself a complete document of the protocol (cut on a line boundary in a trailing stream) is a by-design finding, listed in known_findings.json"],
                replay_fn=replay_doc, quick_budget=100,
-               fault_keys=("cuts", "ndjson_cuts", "cpp_cuts", "cpp_ndjson_cuts", "cpp_ndjson_cut_on_line_boundary", "cpp_ndjson_cut_inside_line", "cpp_ndjson_cut_in_header", "bulk_final_value_streams", "bulk_array_streams", "bulk_string_streams", "cuts_in_the_last_64k_of_a_bulk_value", "cpp_cut_at_k_times_65536", "cpp_cut_at_k_times_65536_pm1", "cpp_cut_inside_value", "cpp_cut_on_value_boundary", "cut_in_magic", "cut_in_version", "cut_in_schema", "cut_inside_value", "cut_on_value_boundary",
+               fault_keys=("cuts", "ndjson_cuts", "cpp_cuts", "cpp_ndjson_cuts", "cpp_ndjson_cut_on_line_boundary", "cpp_ndjson_cut_inside_line", "cpp_ndjson_cut_in_header", "cpp_previous_version_streams", "cpp_previous_version_cuts", "bulk_final_value_streams", "bulk_array_streams", "bulk_string_streams", "cuts_in_the_last_64k_of_a_bulk_value", "cpp_cut_at_k_times_65536", "cpp_cut_at_k_times_65536_pm1", "cpp_cut_inside_value", "cpp_cut_on_value_boundary", "cut_in_magic", "cut_in_version", "cut_in_schema", "cut_inside_value", "cut_on_value_boundary",
                            "cut_at_k_times_65536", "cut_at_k_times_65536_pm1", "ndjson_cut_on_line_boundary", "ndjson_cut_inside_line", "ndjson_cut_in_header"))
 
 
